@@ -19,6 +19,29 @@ CLAIMED = {
             'DESIGN.md 2.2, 4/C03',
             'as C02; derivatives compared off breakpoints of Piecewise/abs; kvxopt ipadd/spmatrix contracts assumed',
             'contract-based deductive verification: symbolic derivative obligations discharged by SMT (z3/cvc5)'),
+    'C01': ('proof',
+            'The residual strings of Line (pi-model with tap/phase shift and asymmetric shunts), PQ (constant power / '
+            'out-of-band constant impedance / ZIP), PV, Slack and Shunt on the live model objects are proved equal to an '
+            'independent textbook complex-power spec for all values; set-point equations of PV/Slack proved. Partial: '
+            'Newton convergence (liveness) is not decided.',
+            'DESIGN.md 4/C01',
+            'services equal their v_str (C02); limiter flag semantics (C09); angle-difference phasor algebra in the spec',
+            'contract-based deductive verification: declared equations vs textbook spec, SMT (z3 NRA)'),
+    'C07': ('proof',
+            'Narrow, compositional: the GENCLS/GENBase equations are proved to be the textbook classical machine (swing '
+            'equation with M, stator KVL, air-gap torque, closed-form power-angle relation); integrator/event/Jacobian '
+            'premises are imported from C04/C06/C02/C03. No trajectory closeness is decided.',
+            'DESIGN.md 4/C07',
+            'convergence theorem of one-step methods on index-1 DAEs assumed; see evidence assumptions',
+            'contract-based deductive verification: model equations vs textbook machine, SMT (z3 NRA)'),
+    'C18': ('proof',
+            'Every linear control block (26 instantiations of 22 classes) is instantiated inside a real Model; its '
+            'define() output is proved to realise the documented transfer function for all parameters, s and inputs '
+            '(Laplace-domain polynomial identity), to balance at the declared initial values, and limited variants '
+            'reduce to the unlimited relation inside limits.',
+            'DESIGN.md 4/C18',
+            'LessThan / limiter flag semantics from C09; specs transcribed from docstrings; parameter preconditions listed',
+            'contract-based deductive verification: block equations => transfer function, SMT (z3 QF_NRA)'),
 }
 
 ALL = ['C%02d' % i for i in range(1, 21)]
